@@ -75,8 +75,10 @@ def run(prop, tier, seed, known):
             else:
                 et = [k * 0.25 - 0.25 for k in range(nf + 2)]
             fr = lambda: [440.0 * 2 ** (rng.randint(-24, 24) / 24.0) for _ in range(rng.randint(0, 3))]
-            rf = [sorted(set(fr()), reverse=rng.random() < 0.5) for _ in rt]
-            ef = [sorted(set(fr()), reverse=rng.random() < 0.5) for _ in et]
+            # a frame may list the same frequency twice (validate accepts it): each listed value is its own event
+            dup = lambda xs: (xs + [xs[0]]) if xs and rng.random() < 0.2 else xs
+            rf = [dup(sorted(set(fr()), reverse=rng.random() < 0.5)) for _ in rt]
+            ef = [dup(sorted(set(fr()), reverse=rng.random() < 0.5)) for _ in et]
             w = rng.choice([0.25, 0.5, 1.0])
             n += 1
             try:
